@@ -479,6 +479,7 @@ ClearUnused(G, names, C) ==
                        !.ins = [i \in 1..Len(G.ins) |-> IF i \in dropOvr THEN [G.ins[i] EXCEPT !.kind = "ovrx"] ELSE G.ins[i]]],
        used |-> IF dropOvr # {} THEN {"overridable_default_dropped"} ELSE {}]
 
+DropKeys(f, names) == [kk \in (DOMAIN f) \ names |-> f[kk]]
 Splice(nodes, k, new) == SubSeq(nodes, 1, k - 1) \o new \o SubSeq(nodes, k + 1, Len(nodes))
 Log(S, tag) == [S EXCEPT !.log = Append(@, tag)]
 
@@ -515,7 +516,10 @@ VisitNode(G, k, S, C) ==
        ty1 == IF inf = <<>> THEN S.ty ELSE [nm \in SeqToSet(n.outs) |-> newTy(CHOOSE i \in 1..Len(n.outs) : n.outs[i] = nm)] @@ S.ty
        \* the Cast evaluator sets the output type even when inference could not run
        ty1c == IF n.op = "Cast" /\ TyGet(ty1, n.outs[1]).dt # n.at.to THEN (n.outs[1] :> [dt |-> n.at.to, sh |-> TyGet(ty1, n.outs[1]).sh]) @@ ty1 ELSE ty1
-       S1 == [S EXCEPT !.ty = ty1c]
+       \* node-level inference is given const_value of small constant inputs as data - also of overridable defaults
+       infUsed == IF inf # <<>> /\ n.op \in {"Reshape", "Expand", "Unsqueeze", "Squeeze"} /\ n.ins[2] \in C.ovr /\ ~IsErr(CVf(n.ins[2]))
+                  THEN {"overridable_read_as_const"} ELSE {}
+       S1 == [S EXCEPT !.ty = ty1c, !.used = @ \cup infUsed]
        TY1(nm) == TyGet(ty1c, nm)
        pe == PE(n, S1, TY1, CVf, C)
        foldable == /\ n.op \notin {"Constant", "If", "ConstantOfShape"} /\ Len(n.outs) = 1 /\ Len(n.ins) > 0
@@ -524,7 +528,7 @@ VisitNode(G, k, S, C) ==
    IN IF pe.hit /\ pe.inl = 0 THEN
          LET cl == ClearUnused([G1 EXCEPT !.nodes = Splice(G1.nodes, k, pe.nodes)], n.ins, C)
          IN [G |-> cl.G, next |-> k,
-             S |-> Log([S1 EXCEPT !.sym = pe.sym, !.used = @ \cup pe.used \cup cl.used,
+             S |-> Log([S1 EXCEPT !.sym = DropKeys(pe.sym, SeqToSet(n.outs)), !.used = @ \cup pe.used \cup cl.used,
                                   !.fresh = @ + (IF pe.tag = "PE_Dropout_mask" THEN 1 ELSE 0)], pe.tag \o ":" \o n.outs[1])]
       ELSE IF pe.hit THEN        \* If with a constant condition: the chosen branch is spliced in, its initializers move up
          LET br == n.sub[pe.inl]
@@ -533,11 +537,11 @@ VisitNode(G, k, S, C) ==
              moved == RenAll(br.nodes, 1)
              cl == ClearUnused([G1 EXCEPT !.nodes = Splice(G1.nodes, k, moved), !.inits = @ \o br.inits], n.ins, C)
          IN [G |-> cl.G, next |-> k,
-             S |-> Log([S1 EXCEPT !.used = @ \cup pe.used \cup cl.used], pe.tag \o ":" \o n.outs[1])]
+             S |-> Log([S1 EXCEPT !.sym = DropKeys(pe.sym, SeqToSet(n.outs)), !.used = @ \cup pe.used \cup cl.used], pe.tag \o ":" \o n.outs[1])]
       ELSE IF foldable /\ ~IsErr(fval) THEN       \* FoldByReference
          LET cl == ClearUnused([G1 EXCEPT !.nodes = Splice(G1.nodes, k, <<>>), !.inits = Append(@, IniR(n.outs[1], fval))], n.ins, C)
          IN [G |-> cl.G, next |-> k,
-             S |-> Log([S1 EXCEPT !.sym = pe.sym, !.used = @ \cup cl.used,
+             S |-> Log([S1 EXCEPT !.sym = DropKeys(pe.sym, SeqToSet(n.outs)), !.used = @ \cup cl.used,
                                   !.ty = (n.outs[1] :> [dt |-> fval.dt, sh |-> fval.shape]) @@ ty1c], "FoldByReference:" \o n.outs[1])]
       ELSE IF n.op = "If" THEN
          LET C2 == [C EXCEPT !.cenv = cm]
